@@ -28,6 +28,7 @@ use vstd::prelude::*;
 use vstd::std_specs::convert::*;
 use vstd::std_specs::cmp::*;
 use std::collections::BTreeMap;
+use vstd::std_specs::iter::IteratorSpec;
 verus! {
 
 global size_of usize == 8;
@@ -56,13 +57,15 @@ SAMPLES = [
     '<pred>(arg..) -> b: ensures b == t_<pred>().contains(tupN(root_spec(arg_0).0, ..))  (hence invariant under replacing an argument by an equal element)',
     'equate_<t>(l, r): ensures inv, rep\' merges exactly the classes of l and r (either orientation), i ~\' j <=> i ~ j \\/ (i ~ l /\\ r ~ j) \\/ (i ~ r /\\ l ~ j), loser pushed to uprooted, tables unchanged',
     'is_dirty() -> b: ensures b == (flag || some t_<rel>_new non-empty || some new type set non-empty || some uprooted list non-empty)',
+    'move_new_to_old(): ensures inv, t_<rel>_old() =~= old.t_<rel>_old() u old.t_<rel>_new(), every new copy (all orders, all diagonal patterns, new type sets) empty, flag cleared, type sets / rep unchanged',
 ]
 
 ASSUMPTIONS = [
     'programs are sampled: the contracts are proved for the module emitted for each probe theory in /verif/probes, for all states, arguments and call histories',
     'runtime contracts: Unification (proved in unit UF) and PrefixTreeN::{new, insert, contains, remove, is_empty, clear} (proved in unit PT) are declared by the same contract text',
     'derived Copy/Clone/PartialEq of the emitted newtypes are structural; BTreeMap::entry / Entry::or_default (element index) are unspecified',
-    'NOT covered: canonicalize, recompute_model_indices, close/close_until, the rule functions, iter_*, move_new_to_old; model-scoped (_own/_all) indices',
+    'NOT covered: canonicalize, recompute_model_indices, close/close_until, the rule functions, iter_*; model-scoped (_own/_all) indices',
+    'part GEN-move (C04): move_new_to_old is proved against an ASSUMED contract of PrefixTreeN::iter (obeys the iterator laws; yields exactly the tuples of the view), which is an iterator-adapter chain outside Verus and is bounded-checked by the native sweep of unit PT',
     'part GEN-define (C05): define_<func> is proved against an ASSUMED contract of the evaluation function <func>(..) -> Option<_> (axiom_eval_<func>: Some(y) => the tuple is in the relation, None => no tuple with these arguments), whose body is outside Verus and is bounded-checked by the native harness; the newtype From/Into impls are body-less there (proved in part GEN)',
     'the field-naming convention of display_index_field_name (the contract generator reads names)',
     'usize is 64 bit',
@@ -94,10 +97,11 @@ pub proof fn lemma_laws_%(T)s() ensures t_laws::<%(T)s>(), forall|v: %(T)s| #[tr
 class Funcs:
     """annotation of the emitted functions of one model"""
 
-    def __init__(self, model, canary, with_define=False):
+    def __init__(self, model, canary, with_define=False, with_move=False):
         self.m = model
         self.canary = canary
         self.with_define = with_define
+        self.with_move = with_move
         self.items = []
         self.names = []
         self.decls = []
@@ -136,7 +140,138 @@ class Funcs:
             hints.append('if nonempty(self.t_%s_new()) { let t = choose|t: Seq<u32>| self.t_%s_new().contains(t); }' % (r, r))
         self.emit(self.fn('is_dirty'), ('b', 'requires self.inv(),\n        ensures b == (%s),' % '\n            || '.join(parts)),
                   self.is_dirty_hints())
+        if self.with_move:
+            self.move_fn()
         return self.items
+
+
+    # ------------------------------------------------------------------------------------------------
+    # move_new_to_old: every old copy becomes old u new (same order), every new copy and new type set becomes empty
+    def move_fn(self):
+        m = self.m
+        it = self.fn('move_new_to_old')
+        it.attr('#[verifier::loop_isolation(false)]')
+        body = it.orig
+        loops = [(mm.group(1), mm.group(2)) for mm in re.finditer(r'for (\[[^\]]*\]|\w+) in self\.(\w+)\.iter\(\) \{', body)]
+        tree_fields = [f for f, ty in m.fields if ty.startswith('PrefixTree')]
+        other_fields = [f for f, ty in m.fields if not ty.startswith('PrefixTree')]
+        post = ['final(self).inv()', '!final(self).dirty_flag()']
+        for r in m.rels:
+            post += ['final(self).t_%s_old() =~= old(self).t_%s_old().union(old(self).t_%s_new())' % (r, r, r), 'forall|t: Seq<u32>| !final(self).t_%s_new().contains(t)' % r]
+        for t in m.types:
+            post += ['final(self).n_%s() == old(self).n_%s()' % (t, t), 'forall|i: int| final(self).rep_%s(i) == old(self).rep_%s(i)' % (t, t),
+                     'forall|i: u32| final(self).in_ts_%s(i) == old(self).in_ts_%s(i)' % (t, t), 'forall|i: u32| !final(self).in_ts_new_%s(i)' % t,
+                     'final(self).uprooted_%s() == old(self).uprooted_%s()' % (t, t)]
+        self.emit(it, (None, 'requires old(self).inv(),\n        ensures %s,' % ',\n            '.join(post)), '')
+        final_hints = ['proof {']
+        for k, (pat, field) in enumerate(loops, start=1):
+            # which relation / type set is this?
+            cs = [c for c in m.copies if c.field == field]
+            ts = [t for t, d in m.typesets.items() if d.get('new') == field]
+            if cs:
+                P = cs[0]
+                r = P.rel
+                n = len(m.rels[r])
+                olds = [c for c in m.copies if c.rel == r and c.age == 'old']
+                if any(c.eqs is not None for c in olds):
+                    raise G.Unsupported('move_new_to_old: diagonal old copies are not supported by the contract generator')
+                mP, aP = G.copy_index_map(m, P)
+                xs = ['x[%d]' % a for a in aP]          # canonical components from a stored tuple x of P
+                mods = [c.field for c in olds]
+                inv = ['gi.iter.obeys_prophetic_iter_laws()']
+                inv += ['self.%s == pre%d.%s' % (f, k, f) for f in tree_fields + other_fields if f not in mods]
+                inv += ['forall|i: int| 0 <= i < gi.seq().len() ==> pre%d.%s@.contains(#[trigger] gi.seq()[i]@)' % (k, field),
+                        'forall|t: Seq<u32>| #[trigger] pre%d.%s@.contains(t) ==> (exists|i: int| 0 <= i < gi.seq().len() && #[trigger] gi.seq()[i]@ == t)' % (k, field)]
+                body_hint = ['proof {', '    assert(gi.seq()[gi.index@] == p__);', '    pre%d.%s.lemma_len(p__@);' % (k, field)]
+                for c in olds:
+                    st = G.stored_of_canonical(m, c, xs)
+                    mv = G.seq_lit(st)
+                    inv.append('self.%s.wf()' % c.field)
+                    inv.append('forall|s: Seq<u32>| #[trigger] self.%s@.contains(s) <==> (pre%d.%s@.contains(s) || exists|i: int| 0 <= i < gi.index@ && #[trigger] Self::mv%d_%s(gi.seq()[i]@) == s)' % (c.field, k, c.field, k, c.field))
+                    self.decls.append('    pub open spec fn mv%d_%s(x: Seq<u32>) -> Seq<u32> { %s }\n' % (k, c.field, mv))
+                    els = G.stored_of_canonical(m, c, ['el%d' % i for i in range(n)])
+                    body_hint.append('    assert([%s]@ =~= Self::mv%d_%s(p__@));' % (', '.join(els), k, c.field))
+                    body_hint.append('    assert forall|s: Seq<u32>| #[trigger] self.%(f)s@.contains(s) <==> (pre%(k)d.%(f)s@.contains(s) || exists|i: int| 0 <= i < gi.index@ + 1 && #[trigger] Self::mv%(k)d_%(f)s(gi.seq()[i]@) == s) by {' % {'f': c.field, 'k': k})
+                    body_hint.append('        if b__.%(f)s@.contains(s) && !pre%(k)d.%(f)s@.contains(s) { let i = choose|i: int| 0 <= i < gi.index@ && #[trigger] Self::mv%(k)d_%(f)s(gi.seq()[i]@) == s; assert(0 <= i < gi.index@ + 1); }' % {'f': c.field, 'k': k})
+                    body_hint.append('        if s == Self::mv%(k)d_%(f)s(p__@) { assert(Self::mv%(k)d_%(f)s(gi.seq()[gi.index@]@) == s); }' % {'f': c.field, 'k': k})
+                    body_hint.append('        if exists|i: int| 0 <= i < gi.index@ + 1 && #[trigger] Self::mv%(k)d_%(f)s(gi.seq()[i]@) == s { let i = choose|i: int| 0 <= i < gi.index@ + 1 && #[trigger] Self::mv%(k)d_%(f)s(gi.seq()[i]@) == s; if i < gi.index@ { assert(b__.%(f)s@.contains(s)); } }' % {'f': c.field, 'k': k})
+                    body_hint.append('    }')
+                body_hint.append('}')
+                forline = 'for %s in self.%s.iter() {' % (pat, field)
+                it.before(forline, 'let ghost pre%d = *self;' % k)
+                it.for_loop(k, 'invariant ' + ',\n                '.join(inv) + ',')
+                it.after(forline, 'let ghost b__ = *self;')
+                # end of the loop body = right before the closing brace that precedes the clear of the iterated copy
+                it.before('}\nself.%s.clear();' % field, '\n'.join(body_hint))
+                # summary after the loop
+                summ = ['proof {']
+                for c in olds:
+                    summ.append('    assert forall|s: Seq<u32>| #[trigger] self.%(f)s@.contains(s) <==> (pre%(k)d.%(f)s@.contains(s) || exists|x: Seq<u32>| #[trigger] pre%(k)d.%(P)s@.contains(x) && Self::mv%(k)d_%(f)s(x) == s) by {' % {'f': c.field, 'k': k, 'P': field})
+                    summ.append('        if exists|x: Seq<u32>| #[trigger] pre%(k)d.%(P)s@.contains(x) && Self::mv%(k)d_%(f)s(x) == s { let x = choose|x: Seq<u32>| #[trigger] pre%(k)d.%(P)s@.contains(x) && Self::mv%(k)d_%(f)s(x) == s; }' % {'f': c.field, 'k': k, 'P': field})
+                    summ.append('    }')
+                summ.append('}')
+                it.before('self.%s.clear();' % field, 'let ghost sm%d = *self;\n' % k + '\n'.join(summ).replace('self.', 'sm%d.' % k))
+                # ---- final reasoning for this relation (identity-ordered primaries only)
+                PO = m.primary(r, 'old')
+                if P is not m.primary(r, 'new') or P.order != list(range(n)) or PO.order != list(range(n)):
+                    raise G.Unsupported('move_new_to_old: the iterated copy / the primary copies of %s are not identity-ordered' % r)
+                fh = final_hints
+                fh.append('    // ---- %s' % r)
+                fh.append('    assert forall|t: Seq<u32>| #[trigger] self.t_%(r)s_old().contains(t) <==> (old(self).t_%(r)s_old().contains(t) || old(self).t_%(r)s_new().contains(t)) by {' % {'r': r})
+                fh.append('        if old(self).t_%(r)s_new().contains(t) { pre%(k)d.%(P)s.lemma_len(t); assert(pre%(k)d.%(P)s@.contains(t)); assert(Self::mv%(k)d_%(PO)s(t) =~= t); }' % {'r': r, 'k': k, 'P': field, 'PO': PO.field})
+                fh.append('        if exists|x: Seq<u32>| #[trigger] pre%(k)d.%(P)s@.contains(x) && Self::mv%(k)d_%(PO)s(x) == t { let x = choose|x: Seq<u32>| #[trigger] pre%(k)d.%(P)s@.contains(x) && Self::mv%(k)d_%(PO)s(x) == t; pre%(k)d.%(P)s.lemma_len(x); assert(Self::mv%(k)d_%(PO)s(x) =~= x); }' % {'k': k, 'P': field, 'PO': PO.field})
+                fh.append('    }')
+                fh.append('    assert(self.t_%(r)s_old() =~= old(self).t_%(r)s_old().union(old(self).t_%(r)s_new()));' % {'r': r})
+                fh.append('    assert forall|t: Seq<u32>| !self.t_%(r)s_new().contains(t) by {}' % {'r': r})
+                for c in olds:
+                    if c is PO:
+                        continue
+                    mO, aO = G.copy_index_map(m, c)
+                    cO = G.seq_lit(['s[%d]' % a for a in aO])
+                    fh.append('    assert forall|s: Seq<u32>| #[trigger] self.%(f)s@.contains(s) <==> (s.len() == %(m)d && self.t_%(r)s_old().contains(%(cO)s)) by {' % {'f': c.field, 'm': mO, 'r': r, 'cO': cO})
+                    fh.append('        let t = %s;' % cO)
+                    fh.append('        if s.len() == %(m)d && old(self).t_%(r)s_new().contains(t) { assert(pre%(k)d.%(P)s@.contains(t)); assert(Self::mv%(k)d_%(f)s(t) =~= s); }' % {'m': mO, 'r': r, 'k': k, 'P': field, 'f': c.field})
+                    fh.append('        if exists|x: Seq<u32>| #[trigger] pre%(k)d.%(P)s@.contains(x) && Self::mv%(k)d_%(f)s(x) == s { let x = choose|x: Seq<u32>| #[trigger] pre%(k)d.%(P)s@.contains(x) && Self::mv%(k)d_%(f)s(x) == s; pre%(k)d.%(P)s.lemma_len(x); assert(%(cOmv)s =~= x); }'
+                              % {'k': k, 'P': field, 'f': c.field, 'cOmv': G.seq_lit(['Self::mv%d_%s(x)[%d]' % (k, c.field, a) for a in aO])})
+                    fh.append('        assert(old(self).%(f)s@.contains(s) <==> (s.len() == %(m)d && old(self).t_%(r)s_old().contains(t)));' % {'f': c.field, 'm': mO, 'r': r})
+                    fh.append('    }')
+                    fh.append('    assert(self.%(f)s@ =~= ISet::new(|s: Seq<u32>| s.len() == %(m)d && self.t_%(r)s_old().contains(%(cO)s)));' % {'f': c.field, 'm': mO, 'r': r, 'cO': cO})
+                for c in m.copies:
+                    if c.rel == r and c.age == 'new' and c is not P:
+                        mN, aN = G.copy_index_map(m, c)
+                        fh.append('    assert(self.%(f)s@ =~= ISet::new(|s: Seq<u32>| s.len() == %(m)d && self.t_%(r)s_new().contains(%(cO)s)));' % {'f': c.field, 'm': mN, 'r': r, 'cO': G.seq_lit(['s[%d]' % a for a in aN])})
+                fh.append('    assert forall|t: Seq<u32>| #[trigger] self.t_%(r)s().contains(t) implies t.len() == %(n)d%(b)s by { assert(old(self).t_%(r)s().contains(t)); }'
+                          % {'r': r, 'n': n, 'b': ''.join(' && t[%d] < self.n_%s()' % (i, m.rel_types[r][i]) for i in range(n))})
+            elif ts:
+                t = ts[0]
+                oldf = m.typesets[t].get('old')
+                inv = ['gi.iter.obeys_prophetic_iter_laws()']
+                inv += ['self.%s == pre%d.%s' % (f, k, f) for f in tree_fields + other_fields if f != oldf]
+                inv += ['forall|i: int| 0 <= i < gi.seq().len() ==> pre%d.%s@.contains(#[trigger] gi.seq()[i]@)' % (k, field),
+                        'forall|t: Seq<u32>| #[trigger] pre%d.%s@.contains(t) ==> (exists|i: int| 0 <= i < gi.seq().len() && #[trigger] gi.seq()[i]@ == t)' % (k, field)]
+                inv.append('self.%s.wf()' % oldf)
+                inv.append('forall|s: Seq<u32>| #[trigger] self.%s@.contains(s) <==> (pre%d.%s@.contains(s) || exists|i: int| 0 <= i < gi.index@ && #[trigger] gi.seq()[i]@ == s)' % (oldf, k, oldf))
+                forline = 'for %s in self.%s.iter() {' % (pat, field)
+                it.before(forline, 'let ghost pre%d = *self;' % k)
+                it.for_loop(k, 'invariant ' + ',\n                '.join(inv) + ',')
+                it.after(forline, 'let ghost b__ = *self;')
+                it.before('}\nself.%s.clear();' % field, '''proof {
+    assert(gi.seq()[gi.index@] == %(v)s);
+    assert forall|s: Seq<u32>| #[trigger] self.%(f)s@.contains(s) <==> (pre%(k)d.%(f)s@.contains(s) || exists|i: int| 0 <= i < gi.index@ + 1 && #[trigger] gi.seq()[i]@ == s) by {
+        if b__.%(f)s@.contains(s) && !pre%(k)d.%(f)s@.contains(s) { let i = choose|i: int| 0 <= i < gi.index@ && #[trigger] gi.seq()[i]@ == s; assert(0 <= i < gi.index@ + 1); }
+        if s == %(v)s@ { assert(gi.seq()[gi.index@]@ == s); }
+        if exists|i: int| 0 <= i < gi.index@ + 1 && #[trigger] gi.seq()[i]@ == s { let i = choose|i: int| 0 <= i < gi.index@ + 1 && #[trigger] gi.seq()[i]@ == s; if i < gi.index@ { assert(b__.%(f)s@.contains(s)); } }
+    }
+}''' % {'f': oldf, 'k': k, 'v': pat})
+                it.before('self.%s.clear();' % field, 'let ghost sm%(k)d = *self;\nproof { assert forall|s: Seq<u32>| #[trigger] sm%(k)d.%(f)s@.contains(s) <==> (pre%(k)d.%(f)s@.contains(s) || pre%(k)d.%(P)s@.contains(s)) by { } }' % {'f': oldf, 'k': k, 'P': field})
+                final_hints.append('    assert forall|i: u32| #[trigger] self.in_ts_%(t)s(i) <==> old(self).in_ts_%(t)s(i) by { assert(sm%(k)d.%(f)s@.contains(tup1(i)) <==> (pre%(k)d.%(f)s@.contains(tup1(i)) || pre%(k)d.%(P)s@.contains(tup1(i)))); }' % {'t': t, 'k': k, 'f': oldf, 'P': field})
+                final_hints.append('    assert forall|i: u32| #[trigger] self.in_ts_%(t)s(i) <==> self.is_root_%(t)s(i) by { assert(old(self).in_ts_%(t)s(i) <==> old(self).is_root_%(t)s(i)); }' % {'t': t})
+                final_hints.append('    assert forall|i: u32| !self.in_ts_new_%(t)s(i) by {}' % {'t': t})
+            else:
+                raise G.Unsupported('move_new_to_old: loop over %s is not understood' % field)
+        final_hints.append('}')
+        it.at_end('\n'.join(final_hints))
+        return it
 
     def is_dirty_hints(self):
         m = self.m
@@ -401,7 +536,7 @@ def build(repo, canary=False, probes=None, part='main'):
     uf.declarations(A, repo)
     models = [G.Model(out[k]) for k in sorted(out)]
     ar = sorted(set(a for m in models for a in m.tree_arities()))
-    pt.declarations(A, repo, ar)
+    pt.declarations(A, repo, ar, with_iter=(part == 'move'))
     A.spec(os.path.join(HERE, '..', 'spec', 'gen.rs'))
     seen_types = set()
     A.exec_names = []
@@ -427,13 +562,13 @@ def build(repo, canary=False, probes=None, part='main'):
         A.item(m.struct)
         A.text(m.impl.header(), 'impl header of the model (from the emitted text)')
         A.text(G.ghost_impl(m), 'GENERATED ghost accessors and representation invariant')
-        fs = Funcs(m, canary, with_define=(part == 'define'))
+        fs = Funcs(m, canary, with_define=(part == 'define'), with_move=(part == 'move'))
         its = fs.all()
         for d in fs.decls:
             A.text(d, 'evaluation function declared by contract only (assumption; bounded-checked by the native harness)')
         for it in its:
             A.item(it)
-        A.exec_names += [x for x in fs.names if part == 'main' or '::define_' in x]
+        A.exec_names += [x for x in fs.names if part == 'main' or (part == 'define' and '::define_' in x) or (part == 'move' and x.endswith('::move_new_to_old'))]
         A.text('}\n}\n', 'impl / module close')
     A.text('} // verus!\nfn main() {}\n', 'footer')
     return A
